@@ -1,5 +1,7 @@
 (* C15 — The CRL cache returns only fresh, byte-faithful bundles for the exact URL.
-   Statements only; every proof is [exact <lemma of C15_Proofs>].
+   Statements only; every proof is [exact <lemma of C15_Proofs / C15_Audit / C15_Codec>].
+   The second half of the file (from C15_results_length on) was added by the theorem
+   audit, docs/audit/C15.md, which maps every clause of the property text to theorems.
 
    The cache is verifier/crl.FileCache (model: C15_Model.get / set / run_ops over a
    directory).  Functions of other packages are universally quantified:
@@ -11,7 +13,7 @@
    the way).  Hypotheses on a history:
      inj_on sha (urls ops)      no SHA-256 collision among the urls of the history
      roundtrip_on enc dec ops   Unmarshal gives back what Marshal was given, on each Set. *)
-From NV Require Import Base C15_Model C15_Proofs.
+From NV Require Import Base C15_Model C15_Proofs C15_Audit C15_Codec.
 Open Scope string_scope.
 
 (* ---- the cache refines the map url -> entry, for histories of any length ---- *)
@@ -179,4 +181,300 @@ Proof.
   split; [apply inj_b_on; vm_compute; reflexivity|].
   split; [apply roundtrip_b_on; vm_compute; reflexivity|].
   left; vm_compute; reflexivity.
+Qed.
+
+(* ======================================================================== *)
+(* Added by the theorem audit (docs/audit/C15.md).                          *)
+(*   touches o   o may change the file of its url: a Set with a base, or an  *)
+(*               operation of the environment (OPut / ODel / OMkdir)         *)
+(*   stores o    o may put something at the key: as above without ODel       *)
+(*   idle_on u o o is on another url, or touches o = false (a Get, a Set of  *)
+(*               a nil bundle, a Set of a bundle whose base is nil)          *)
+(* ======================================================================== *)
+
+(* one result per operation: [last _ RNone] never uses its default above / below *)
+Theorem C15_results_length : forall sha enc dec parse ops,
+  List.length (impl_results sha enc dec parse ops) = List.length ops.
+Proof. exact results_length. Qed.
+Print Assumptions C15_results_length.
+
+(* ---- "last stored under that identical URL string" ---- *)
+(* C15_get_after_set strengthened: between the last Set of u that reached the file
+   and the Get, anything may happen on other urls, and on u itself every Get and
+   every refused Set (nil bundle, nil base) *)
+Theorem C15_get_after_last_set : forall sha enc dec parse pre mid u e b d t,
+  let ops := (pre ++ OSet u e (Some (Some b, d)) :: mid)%list in
+  inj_on sha (urls (ops ++ [OGet u t])) -> roundtrip_on enc dec (ops ++ [OGet u t]) ->
+  (forall o, In o pre -> o <> OMkdir u) ->
+  (forall o, In o mid -> idle_on u o) ->
+  last (impl_results sha enc dec parse (ops ++ [OGet u t])) RNone = get_entry parse b (norm d) t.
+Proof. exact get_after_last_set. Qed.
+Print Assumptions C15_get_after_last_set.
+
+(* the clause as worded.  Bytes that are the DER of a CRL as the parser reads it
+   (its Raw is the bytes themselves: true of every RevocationList that came out of
+   x509.ParseRevocationList), stored last under u, both parts not past NextUpdate:
+   Get answers a bundle with exactly these bytes (an empty delta is no delta) *)
+Theorem C15_exact_bytes_partial : forall sha enc dec parse pre mid u e b d t nb,
+  let ops := (pre ++ OSet u e (Some (Some b, d)) :: mid)%list in
+  inj_on sha (urls (ops ++ [OGet u t])) -> roundtrip_on enc dec (ops ++ [OGet u t]) ->
+  (forall o, In o pre -> o <> OMkdir u) ->
+  (forall o, In o mid -> idle_on u o) ->
+  parse b = POk b (Some nb) -> (t <= nb)%Z ->
+  (forall dd, norm d = Some dd -> exists nd, parse dd = POk dd (Some nd) /\ (t <= nd)%Z) ->
+  last (impl_results sha enc dec parse (ops ++ [OGet u t])) RNone = RHit b (norm d).
+Proof. exact exact_bytes_partial. Qed.
+Print Assumptions C15_exact_bytes_partial.
+
+(* without the hypothesis [parse b = POk b _] the literal clause is FALSE of the
+   model and of the real code: the parser ignores bytes after the first DER element,
+   so a hand-built RevocationList whose Raw has trailing bytes comes back without them
+   (harness family "matrix", base W2; see docs/audit/C15.md, finding O1) *)
+Theorem C15_exact_bytes_literal_refuted :
+  exists i u b b' t,
+    wf i = true /\ facts_cover i = true /\
+    i_ops i = [OSet u false (Some (Some b, None)); OGet u t] /\
+    o_res (model i) = [ROk; RHit b' None] /\ b' <> b.
+Proof. exact exact_bytes_literal_refuted. Qed.
+Print Assumptions C15_exact_bytes_literal_refuted.
+
+(* "only": whatever the history (any length, environment included), a bundle
+   answered by a final Get u comes from the LAST operation that touched u — a Set u
+   of bytes b, d, or a file written by the environment that decodes to b, d — its
+   parts are the Raw the parser reads from b and d, and neither NextUpdate has passed *)
+Theorem C15_hit_only_last_store : forall sha enc dec parse ops u t b' d',
+  inj_on sha (urls (ops ++ [OGet u t])) -> roundtrip_on enc dec (ops ++ [OGet u t]) ->
+  last (impl_results sha enc dec parse (ops ++ [OGet u t])) RNone = RHit b' d' ->
+  exists pre w mid b d,
+    ops = (pre ++ w :: mid)%list /\ (forall o, In o mid -> idle_on u o) /\
+    ((exists e d0, w = OSet u e (Some (Some b, d0)) /\ d = norm d0) \/
+     (exists c, w = OPut u c /\ dec c = Some (b, d))) /\
+    (exists nb, parse b = POk b' (Some nb) /\ (t <= nb)%Z) /\
+    match d with
+    | None => d' = None
+    | Some dd => exists rd nd, d' = Some rd /\ parse dd = POk rd (Some nd) /\ (t <= nd)%Z
+    end.
+Proof. exact hit_only_last_store. Qed.
+Print Assumptions C15_hit_only_last_store.
+
+(* histories of store / read operations only (the property's quantifier): the origin is a Set of u *)
+Theorem C15_hit_only_last_set : forall sha enc dec parse ops u t b' d',
+  inj_on sha (urls (ops ++ [OGet u t])) -> roundtrip_on enc dec (ops ++ [OGet u t]) ->
+  forallb is_api ops = true ->
+  last (impl_results sha enc dec parse (ops ++ [OGet u t])) RNone = RHit b' d' ->
+  exists pre e b d mid,
+    ops = (pre ++ OSet u e (Some (Some b, d)) :: mid)%list /\ (forall o, In o mid -> idle_on u o) /\
+    (exists nb, parse b = POk b' (Some nb) /\ (t <= nb)%Z) /\
+    match norm d with
+    | None => d' = None
+    | Some dd => exists rd nd, d' = Some rd /\ parse dd = POk rd (Some nd) /\ (t <= nd)%Z
+    end.
+Proof. exact hit_only_last_set. Qed.
+Print Assumptions C15_hit_only_last_set.
+
+(* ---- "for URLs never stored, the result is a cache miss" ---- *)
+(* C15_never_set_miss strengthened: earlier Gets, refused Sets and removals of u itself are allowed *)
+Theorem C15_never_stored_miss : forall sha enc dec parse ops u t,
+  inj_on sha (urls (ops ++ [OGet u t])) -> roundtrip_on enc dec (ops ++ [OGet u t]) ->
+  (forall o, In o ops -> op_url o = u -> stores o = false) ->
+  last (impl_results sha enc dec parse (ops ++ [OGet u t])) RNone = RMiss 0.
+Proof. exact never_stored_miss. Qed.
+Print Assumptions C15_never_stored_miss.
+
+(* an entry removed from the directory and not stored again: cache miss *)
+Theorem C15_deleted_miss : forall sha enc dec parse pre mid u t,
+  let ops := (pre ++ ODel u :: mid)%list in
+  inj_on sha (urls (ops ++ [OGet u t])) -> roundtrip_on enc dec (ops ++ [OGet u t]) ->
+  (forall o, In o mid -> op_url o = u -> stores o = false) ->
+  last (impl_results sha enc dec parse (ops ++ [OGet u t])) RNone = RMiss 0.
+Proof. exact deleted_miss. Qed.
+Print Assumptions C15_deleted_miss.
+
+(* ---- Get on an ARBITRARY directory: no history, no hypothesis on sha / enc / dec ---- *)
+(* a bundle iff the file at the hashed name is a regular file that decodes, both
+   parts parse and carry a NextUpdate, and neither has passed; the bundle has the Raw of both *)
+Theorem C15_get_hit_iff : forall sha dec parse (f : fs) u t b' d',
+  get sha dec parse f u t = RHit b' d' <->
+  exists c b d, alookup (file_name sha u) f = Some (Some c) /\ dec c = Some (b, d) /\
+    (exists nb, parse b = POk b' (Some nb) /\ (t <= nb)%Z) /\
+    match d with
+    | None => d' = None
+    | Some dd => exists rd nd, d' = Some rd /\ parse dd = POk rd (Some nd) /\ (t <= nd)%Z
+    end.
+Proof. exact get_hit_iff. Qed.
+Print Assumptions C15_get_hit_iff.
+
+(* a cache miss iff there is no file (0), or the file is a well-formed entry whose
+   base has expired (1), or whose base is fresh and whose delta has expired (2) *)
+Theorem C15_get_miss_iff : forall sha dec parse (f : fs) u t k,
+  get sha dec parse f u t = RMiss k <->
+  (alookup (file_name sha u) f = None /\ k = 0%N) \/
+  exists c b d, alookup (file_name sha u) f = Some (Some c) /\ dec c = Some (b, d) /\
+    exists rb nb, parse b = POk rb (Some nb) /\
+      match d with
+      | None => (t > nb)%Z /\ k = 1%N
+      | Some dd => exists rd ond, parse dd = POk rd ond /\
+          (((t > nb)%Z /\ k = 1%N) \/
+           ((t <= nb)%Z /\ exists nd, ond = Some nd /\ (t > nd)%Z /\ k = 2%N))
+      end.
+Proof. exact get_miss_iff. Qed.
+Print Assumptions C15_get_miss_iff.
+
+(* ---- what does NOT change ---- *)
+Theorem C15_get_changes_nothing : forall sha enc dec parse (f : fs) u t,
+  step sha enc dec parse f (OGet u t) = (f, get sha dec parse f u t, []).
+Proof. exact get_changes_nothing. Qed.
+Print Assumptions C15_get_changes_nothing.
+
+(* Set: no file of ANY other name changes (no hypothesis on sha); a Set that does
+   not answer nil changes nothing at all; a Set that answers nil has left exactly the
+   encoding of its bundle in the file of its url; the only destination it can hand
+   to file.WriteFile is that file *)
+Theorem C15_set_frame : forall sha enc (f : fs) u e bd,
+  let f' := fst (fst (set sha enc f u e bd)) in
+  let r := snd (fst (set sha enc f u e bd)) in
+  let w := snd (set sha enc f u e bd) in
+  (forall n, n <> file_name sha u -> alookup n f' = alookup n f) /\
+  (r <> ROk -> f' = f) /\
+  (r = ROk -> exists b d, bd = Some (Some b, d) /\ alookup (file_name sha u) f' = Some (Some (enc e b d))) /\
+  (w = [] \/ w = [file_name sha u]).
+Proof. exact set_frame. Qed.
+Print Assumptions C15_set_frame.
+
+(* on disk: after the last Set of u that reached the file, the file of u holds
+   exactly the encoding of the bytes handed to that Set (no decoder involved) *)
+Theorem C15_file_after_set : forall sha enc dec parse pre mid u e b d,
+  let ops := (pre ++ OSet u e (Some (Some b, d)) :: mid)%list in
+  inj_on sha (urls ops) ->
+  (forall o, In o pre -> o <> OMkdir u) ->
+  (forall o, In o mid -> idle_on u o) ->
+  alookup (file_name sha u) (impl_files sha enc dec parse ops) = Some (Some (enc e b d)).
+Proof. exact file_after_set. Qed.
+Print Assumptions C15_file_after_set.
+
+(* ---- the path: a direct child of the root, for EVERY url ---- *)
+(* splitting root/<name> at its last '/' gives back the root and the name; the name
+   is not "." or "..", not empty for a non-empty digest, 64 characters for SHA-256 *)
+Theorem C15_in_root_child : forall sha u,
+  dir_base (entry_path sha u) = (Some root, file_name sha u) /\
+  file_name sha u <> "." /\ file_name sha u <> ".." /\
+  (sha u <> "" -> file_name sha u <> "") /\
+  (String.length (sha u) = 32 -> String.length (file_name sha u) = 64).
+Proof. exact in_root_child. Qed.
+Print Assumptions C15_in_root_child.
+
+(* the temporary files of file.WriteFile (root/notation-<digits>) are never the file of a url *)
+Theorem C15_temp_never_entry : forall sha u x, file_name sha u <> "notation-" ++ x.
+Proof. exact temp_never_entry. Qed.
+Print Assumptions C15_temp_never_entry.
+
+(* ---- byte-faithful on disk: the text Set writes determines the bytes ---- *)
+(* [enc_json] is the model of json.Marshal(fileCacheContent) (compared with the real
+   file content by the harness in every case); a decoder of it exists *)
+Theorem C15_enc_json_decodable : forall e b d, dec_canon (enc_json e b d) = Some (b, norm d).
+Proof. exact dec_canon_enc. Qed.
+Print Assumptions C15_enc_json_decodable.
+
+Theorem C15_enc_json_injective : forall e b d e' b' d',
+  enc_json e b d = enc_json e' b' d' -> b = b' /\ norm d = norm d'.
+Proof. exact enc_json_injective. Qed.
+Print Assumptions C15_enc_json_injective.
+
+(* ---- the two hypotheses on histories can be met for ALL histories at once ---- *)
+Theorem C15_hypotheses_satisfiable :
+  (exists dec, forall ops, roundtrip_on enc_json dec ops) /\ (exists sha, forall us, inj_on sha us).
+Proof. exact (conj roundtrip_satisfiable inj_satisfiable). Qed.
+Print Assumptions C15_hypotheses_satisfiable.
+
+(* ---- non-vacuity of the audit theorems: concrete histories meeting every hypothesis ---- *)
+Definition ex_parse (x : string) : crlfact :=
+  if String.eqb x "X" then POk "X" (Some 100%Z)
+  else if String.eqb x "Y" then POk "Y" (Some 50%Z)
+  else if String.eqb x "D" then POk "D" (Some 10%Z)
+  else if String.eqb x "Z" then POk "Z" None
+  else PErr.
+Definition ex_id (u : string) : string := u.
+Definition ex_pre : list op :=
+  [OSet "u" false (Some (Some "X", None)); OGet "u" 5%Z; OSet "U" false (Some (Some "X", Some "D"))].
+Definition ex_mid : list op :=
+  [OGet "u" 7%Z; OSet "u" false None; OSet "u" false (Some (None, Some "D"));
+   OSet "u " false (Some (Some "X", None)); ODel "U"].
+Definition ex_ops : list op := (ex_pre ++ OSet "u" false (Some (Some "Y", Some "D")) :: ex_mid)%list.
+
+(* overwrite, then Gets and refused Sets of the same url and traffic on look-alike
+   urls: the hypotheses of C15_get_after_last_set / C15_exact_bytes_partial /
+   C15_file_after_set hold, and the answers are the last stored bytes while fresh,
+   a miss once the delta alone has expired *)
+Example C15_example_last_set :
+  (forall o, In o ex_pre -> o <> OMkdir "u") /\ (forall o, In o ex_mid -> idle_on "u" o) /\
+  ex_parse "Y" = POk "Y" (Some 50%Z) /\
+  last (impl_results ex_id enc_json dec_canon ex_parse (ex_ops ++ [OGet "u" 8%Z])) RNone = RHit "Y" (Some "D") /\
+  last (impl_results ex_id enc_json dec_canon ex_parse (ex_ops ++ [OGet "u" 20%Z])) RNone = RMiss 2 /\
+  last (impl_results ex_id enc_json dec_canon ex_parse (ex_ops ++ [OGet "u" 51%Z])) RNone = RMiss 1 /\
+  alookup (file_name ex_id "u") (impl_files ex_id enc_json dec_canon ex_parse ex_ops)
+    = Some (Some "{""baseCRL"":""WQ=="",""deltaCRL"":""RA==""}").
+Proof.
+  assert (forall o, In o ex_pre -> o <> OMkdir "u") as Hpre.
+  { intros o H. cbn in H. intuition (subst; discriminate). }
+  assert (forall o, In o ex_mid -> idle_on "u" o) as Hmid.
+  { intros o H. cbn in H. unfold idle_on.
+    repeat (destruct H as [<-|H]; [cbn; first [right; reflexivity | left; discriminate]|]). contradiction. }
+  split; [exact Hpre|]. split; [exact Hmid|]. split; [reflexivity|].
+  split.
+  { apply (C15_exact_bytes_partial ex_id enc_json dec_canon ex_parse ex_pre ex_mid "u" false "Y" (Some "D") 8%Z 50%Z);
+      auto using inj_id, roundtrip_canon; try reflexivity; try (cbn; lia).
+    intros dd H. injection H as <-. exists 10%Z. split; [reflexivity|lia]. }
+  split.
+  { unfold ex_ops. rewrite (C15_get_after_last_set ex_id enc_json dec_canon ex_parse ex_pre ex_mid "u" false "Y" (Some "D") 20%Z);
+      auto using inj_id, roundtrip_canon. }
+  split.
+  { unfold ex_ops. rewrite (C15_get_after_last_set ex_id enc_json dec_canon ex_parse ex_pre ex_mid "u" false "Y" (Some "D") 51%Z);
+      auto using inj_id, roundtrip_canon. }
+  unfold ex_ops. rewrite (C15_file_after_set ex_id enc_json dec_canon ex_parse ex_pre ex_mid "u" false "Y" (Some "D"));
+    auto using inj_id.
+Qed.
+
+(* a url never stored although look-alikes were, and itself read, refused and removed before *)
+Example C15_example_never_stored :
+  let ops := [OSet "u " false (Some (Some "X", None)); OSet "U" false (Some (Some "Y", Some "D"));
+              OGet "u" 1%Z; OSet "u" false None; ODel "u"; OSet "u" true (Some (None, None))] in
+  (forall o, In o ops -> op_url o = "u" -> stores o = false) /\
+  last (impl_results ex_id enc_json dec_canon ex_parse (ops ++ [OGet "u" 2%Z])) RNone = RMiss 0 /\
+  last (impl_results ex_id enc_json dec_canon ex_parse (ops ++ [OGet "u " 2%Z])) RNone = RHit "X" None.
+Proof.
+  cbv zeta.
+  match goal with |- ?A /\ _ => assert A as H end.
+  { intros o H. cbn in H. repeat (destruct H as [<-|H]; [cbn; first [reflexivity | discriminate]|]). contradiction. }
+  split; [exact H|]. split.
+  - apply C15_never_stored_miss; auto using inj_id, roundtrip_canon.
+  - vm_compute. reflexivity.
+Qed.
+
+(* a store / read history that ends in a bundle: the premises of C15_hit_only_last_set hold *)
+Example C15_example_hit_only :
+  forallb is_api ex_pre = true /\
+  last (impl_results ex_id enc_json dec_canon ex_parse (ex_pre ++ [OGet "U" 9%Z])) RNone = RHit "X" (Some "D") /\
+  exists pre e b d mid, ex_pre = (pre ++ OSet "U" e (Some (Some b, d)) :: mid)%list /\ b = "X" /\ d = Some "D".
+Proof.
+  split; [reflexivity|]. split; [vm_compute; reflexivity|].
+  destruct (C15_hit_only_last_set ex_id enc_json dec_canon ex_parse ex_pre "U" 9%Z "X" (Some "D"))
+    as (pre & e & b & d & mid & E & _ & _ & _); auto using inj_id, roundtrip_canon.
+  exists [OSet "u" false (Some (Some "X", None)); OGet "u" 5%Z], false, "X", (Some "D"), []. auto.
+Qed.
+
+(* corrupted, removed, a zero NextUpdate: premises of C15_corrupt_history / C15_deleted_miss / C15_zero_error *)
+Example C15_example_corrupt_deleted_zero :
+  not_an_entry dec_canon ex_parse "{""baseCRL"":""WA==""" /\
+  not_an_entry dec_canon ex_parse "{""baseCRL"":""QUJD""}" /\
+  last (impl_results ex_id enc_json dec_canon ex_parse
+          (ex_pre ++ [OPut "u" "{""baseCRL"":""WA=="""; OGet "U" 1%Z; OGet "u" 1%Z])) RNone = RErr 2 /\
+  last (impl_results ex_id enc_json dec_canon ex_parse
+          (ex_pre ++ [OPut "u" "{""baseCRL"":""QUJD""}"; OGet "u" 1%Z])) RNone = RErr 3 /\
+  last (impl_results ex_id enc_json dec_canon ex_parse (ex_pre ++ [ODel "u"; OGet "U" 1%Z; OGet "u" 1%Z])) RNone = RMiss 0 /\
+  last (impl_results ex_id enc_json dec_canon ex_parse
+          (ex_pre ++ [OSet "u" false (Some (Some "X", Some "Z")); OGet "u" 1%Z])) RNone = RErr 6.
+Proof.
+  split; [left; vm_compute; reflexivity|].
+  split; [right; exists "ABC", None; split; [vm_compute; reflexivity | left; reflexivity]|].
+  repeat split; vm_compute; reflexivity.
 Qed.
